@@ -110,6 +110,7 @@ class Unit:
         em = self.em; ix = self.ix
         for r in self.spec.roots: em.fname(em.find(r))
         for c in list(self.spec.top_contracts):
+            if c.endswith('_virtual'): continue   # generated dispatcher: contract spliced in virtuals()
             em.fname(em.find(c))
         protos = []; bodies = []
         while em.queue:
@@ -403,7 +404,12 @@ class Unit:
             rt = em.cn(em.ty.parse(em.ret_type(base_decl)))
             sig = f"{rt} {rn}_{meth}_virtual({', '.join([rn + '* self'] + [em.decl(t, n) for t, n in params])})"
             protos.append(sig + ';')
-            body = sig + "\n{\n"
+            vname = f"{rn}_{meth}_virtual"
+            vcontract = em.contracts.get(vname, '')
+            if vname in em.opaque:
+                if not vcontract: raise Abort('opaque virtual dispatcher without contract: ' + vname)
+                out.append(sig + "\n" + vcontract + "\n;\n"); continue
+            body = sig + "\n" + (vcontract + "\n" if vcontract else '') + "{\n"
             for dn, c in impls:
                 cname = em.fname(c['id'])
                 call = f"{cname}({', '.join(['(' + dn + '*)self'] + [n for t, n in params])})"
